@@ -28,6 +28,20 @@ CHECKS.update({
          "As C01 for the conditional query, plus the 'never fails in another way' clause by the exception recorder.",
          "trusts O1/O2; sampled models and graphs (n<=5)", "DESIGN §4 C03"),
 })
+CHECKS.update({
+ "C10": ("post-condition on the real canonicalize / Canonicalizer.canonicalize / canonical_expr_equal: original and canonical form evaluated under a free interpretation (mixture-of-products joint law over (population, name, world) random variables, exact rationals) for all/48 assignments x 2 interpretations; random well-scoped expression trees + permutation/semantic-edit pairs",
+         "Meaning preservation is decided for every canonicalisation the workload performs, and every 'canonically equal' verdict is checked semantically. Held = no difference at any evaluated (expression, interpretation, assignment).",
+         "trusts vmon/freeinterp.py and the reading conventions of DESIGN §3; interpretations are sampled", "DESIGN §4 C10"),
+ "C11": ("post-condition on the real canonicalize applying it twice (object and text equality); driver comparing canonical forms of presentation permutations; offline comparison of canonical texts printed by sub-processes under PYTHONHASHSEED 0/1/2/random",
+         "Idempotence, invariance under the statement's presentation permutations and hash-seed independence are each decided on every generated expression. Held = no differing pair observed.",
+         "object equality (==) and str() as the statement says; expressions sampled (depth<=4/5) plus targeted tie/re-flattening classes", "DESIGN §4 C11"),
+ "C12": ("driver-side monitor of the pair str/parse_y0 on expressions built only with public operators: parse succeeds, parsed object denotes the same function (free interpretation, exact), and in the un-nested-division family parsed == original and same text; post-condition on parse_y0 records every parsed string",
+         "Round trip decided per generated expression. Held = every printed form parsed, denoted the same function, and (sub-family) was object- and text-identical.",
+         "trusts vmon/freeinterp.py; 'pi*' (not an identifier, outside the parser's table) excluded", "DESIGN §4 C12"),
+ "C13": ("post-conditions on every operator dunder (__mul__/__rmul__/__truediv__ of all 8 expression types) and helper (marginalize, conditional, normalize_marginalize, Fraction.simplify, Sum.simplify, Sum.safe, Product.safe, chain_expand, fraction_expand, bayes_expand, contract, recursive_contract): result's denotation vs the mathematical operation on the operands' denotations under a free interpretation (exact); full 8x8 operand-type matrix required",
+         "Each operator/helper application made by the workload (incl. the inner applications the operators make themselves) is judged. Held = no differing application outside the listed finding; every cell of the type matrix exercised.",
+         "trusts vmon/freeinterp.py; requests that sum over a name mentioned only with a value mark are counted, not judged (DESIGN §3)", "DESIGN §4 C13"),
+})
 PLANNED = {}
 
 def main():
